@@ -61,6 +61,20 @@ Ideas in other directions (only where provably equivalent) - housekeeping code i
   - in pdu.py: loop conditions written as `len(rest) > 0` / `rest != b''` style tests where provably equivalent, explicit `errors='strict'` / `codecs.decode`, `bytes.decode` on a `bytes(...)` copy, `int.from_bytes` / `int.to_bytes` for the 16-bit primitives, `struct.pack('>H')` / `struct.unpack_from`;
   - arithmetic and comparisons turned around; `not (a and b)` <-> `not a or not b`; chained comparisons split; `elif` ladders reordered when the tests are mutually exclusive; small private predicates (`_isPersistent()`, `_windowHasRoom()`), class-level constants for magic numbers (10 s default timeout, 0.1 s notification delay, 65535).
 """
+if mode == "neutral5":
+    mode = "neutral"
+    EXTRA = """IMPORTANT - be original: four earlier rounds of refactorings of this library already used the following reshapes, so do NOT make them the core of yours (they may appear incidentally); look for DIFFERENT, equally legitimate ways a maintainer might restructure the code:
+  - merged alarm-cancelling loops, `.items()`/`.values()`/`.pop()` swaps; try/except KeyError <-> `in` test <-> `dict.get` <-> early return; closures <-> bound methods; handleCONNACK split into helpers, `_enter(state)`, next state by a conditional expression, `_rememberSession`, `_startKeepalive`/`_stopKeepalive`, cancel-and-clear helpers, `handle, x.alarm = x.alarm, None`; `_slotFreed()` with a guard, `_isPersistent()`, `_windowHasRoom()`; `_arm(request, delay, cb)`; class constants for magic numbers;
+  - in pdu.py: base classes / template methods, `_seal`/`_frame` helpers, `int.to_bytes`/`int.from_bytes`/`struct`, position-based decoders, namedtuple tables, `enumerate`-based decodeLength, explicit range guards;
+  - tables for the state machine, mixins, dispatch tables, sentinel objects, work lists, generators, `next(genexp, default)`, for-else, priming-read framing loop, `_frameSize()`/`_packetSize()` helpers, `del buf[:n]`, classmethods, `setdefault` loops in buildProtocol, a collected set of identifiers in use.
+Ideas in other directions (only where provably equivalent):
+  - how requests are built from the arguments of connect()/publish()/subscribe()/unsubscribe(): a small factory helper (`_newRequest(cls, **fields)` using setattr in a loop, or a classmethod on the PDU), a tuple of (attribute, value) pairs, arguments normalised first (`qos = int(qos)` only where provably identical), keyword-only re-ordering;
+  - how optional application callbacks (onPublish, onDisconnection, onMqttConnectionMade) are invoked: read into a local first, `callable(cb)`, an `_notify(name, *args)` helper using getattr, a no-op default tested by identity;
+  - how the argument checks are written: `isinstance(x, (list,))`, `type(x) is list` only where provably the same for the inputs that matter, checks moved into small `_requireXxx` helpers that raise, a table of (predicate, exception) pairs walked in order, De Morgan / chained comparisons, `not 0 <= q <= 2`;
+  - how delays are computed (`base = request.interval(); delay = base + share` with `share = len(w) / 4.0`, a `_retryDelay(request, window)` helper) and how deadlines are cancelled (a `_settleConnect(request)` helper that cancels the deadline and returns the Deferred, cancel placed in both branches instead of before the `if`);
+  - how loops that empty a window are written (`while w: k, r = w.popitem()` ONLY where the order is provably unobservable - otherwise keep the order - `for k in tuple(w)`, `list(w.items())` snapshots with `del`), how the framing loop tests its minimum (`len(buf) <= 1`, `not len(buf) > 1`), reading `self._buffer` through a local that is re-read after each dispatch;
+  - module-level helper functions instead of methods where `self` is not needed, `functools.partial` for timer callbacks with their request bound, `operator` functions, `any()`/`all()` over small tuples, `dict.fromkeys`, tuple-returning helpers unpacked at the call site.
+"""
 if mode == "break":
     used = []
     for f in sorted(glob.glob("/verif/seeded/%s-*/meta.json" % pid)):
